@@ -43,10 +43,10 @@
 (* (Next appends one character; a raised error is final and a text in the  *)
 (* unspecified zone is not extended: all its extensions are).  Invariants: *)
 (* RunAgrees, RoundTrip, EndsClean, NamesValid, Lossless, Scalable,        *)
-(* Compositional (the last two justify the size-stressed concretizations   *)
+(* Compositional, ResetsBetweenItems, OutIsAppendOnly (these justify the size-stressed concretizations   *)
 (* of the harness: a character of a self-looping class may stand for a run *)
 (* of such characters, and a text that ends between items may be followed  *)
-(* by any other text; both are checked for the statement and for the model *)
+(* by any other text; the first two are checked for the statement and for the model *)
 (* with every known defect switched on = the pinned code).                 *)
 (* Spec-level negative controls (each tried; x03.py re-runs them):         *)
 (*   Defects = {"eof"} -> EndsClean, {"nobs"} -> RoundTrip,                *)
@@ -229,6 +229,18 @@ Prepend(out, o) == IF o.k = "ok" THEN [o EXCEPT !.out = out \o @] ELSE o
 Compositional ==
    Clean(inp) => \A d \in {{}, EnvKnown} : \A t \in Probes :
                     EnvOutcome(d, inp \o <<10, 32>> \o t) = Prepend(EnvOutcome({}, inp).out, EnvOutcome(d, t))
+\* ... and for EVERY following text and every defect model, by induction from two facts: after a
+\* clean text and white space the machine is in its initial state except for the pairs yielded so
+\* far, and no step reads those pairs (it only appends to them)
+ResetsBetweenItems ==
+   Clean(inp) => \A d \in SUBSET EnvKnown :
+                    EnvRun(d, inp \o <<10, 32>>) = [EnvInit EXCEPT !.out = EnvOutcome({}, inp).out]
+OutIsAppendOnly ==
+   LET pre == <<[name |-> <<90>>, value |-> <<47>>]>>
+       Pfx(st) == [st EXCEPT !.out = pre \o @]
+   IN \A d \in SUBSET EnvKnown : \A c \in Alphabet :
+         /\ EnvStep(d, Pfx(est), c) = Pfx(EnvStep(d, est, c))
+         /\ EnvEnd(d, Pfx(est)) = Prepend(pre, EnvEnd(d, est))
 
 ----------------------------------------------------------------------------
 \* emission for the harness (spec -> code): one CASE per text, with the outcome of the statement
@@ -241,5 +253,6 @@ EmitCase ==
    Emit => LET e == EnvOutcome({}, inp)
                alts == {da \in {[d |-> d, o |-> EnvOutcome(d, inp)] : d \in (SUBSET EnvKnown) \ {{}}} : da.o # e}
            IN PrintT(<<"CASE", ToJson([inp |-> inp, exp |-> e, clean |-> (e.k = "ok" /\ alts = {}),
+                                       distinct |-> EnvNamesDistinct(e.out),
                                        alts |-> SetToSeq({[d |-> DName(da.d), o |-> da.o] : da \in alts})])>>)
 =============================================================================
